@@ -604,6 +604,8 @@ impl Core {
         client_random: Option<&[u8]>,
         log_id: &log_utils::IdChain<u64>,
     ) -> Result<(), String> {
+        #[cfg(feature = "verif")]
+        crate::verif::hooks::note_rule_input(client_ip, client_random);
         if let Some(rules_engine) = &context.settings.rules_engine {
             if let Some(ip) = client_ip {
                 // an IPv4 peer of a dual-stack listener is reported as `::ffff:a.b.c.d`
